@@ -192,7 +192,7 @@ func (o *oraclePool) selfTest(r *vh.Run) {
 		if err != nil {
 			r.Fatal("oracle self-test %s: %v", c.name, err)
 		}
-		if a.MetaOK != c.meta || len(a.DanglingRefs) != c.dangling || (c.inst != "" && c.dangling == 0 && a.InstanceOK != c.instOK) {
+		if a.MetaOK != c.meta || len(a.DanglingRefs) != c.dangling || (c.inst != "" && c.meta && c.dangling == 0 && a.InstanceOK != c.instOK) {
 			r.Fatal("oracle self-test %s: got meta_ok=%v (%s) dangling=%v instance_ok=%v (%s)", c.name, a.MetaOK, a.MetaErr, a.DanglingRefs, a.InstanceOK, a.InstanceErr)
 		}
 	}
